@@ -132,6 +132,17 @@ func Reference() []*Col {
 		fv.Points = append(fv.Points, Obj("_id", Str(seedID('f', i)), "vector", Floats(float64(i), 1)))
 	}
 	w = append(w, fv)
+	// a schema entry that carries, besides the parameter block of its type, a stray block of the OTHER vector type with
+	// another size (creation keeps such blocks): the dimension that counts is the one of the declared type
+	stray := flat(2, "euclidean")
+	stray.O = append(stray.O, KV{"vectorVamana", Obj("vectorSize", Int(4), "distanceMetric", Str("euclidean"),
+		"searchSize", Int(75), "degreeBound", Int(64), "alpha", Flt(1.2))})
+	sv := &Col{User: "dave", Id: "stray", Create: Obj("id", Str("stray"), "indexSchema", Obj("emb", stray))}
+	for i := 0; i < 2; i++ {
+		// (seeded without the vector: whether a vector of the declared size is accepted is a catalogue case, judged by the spec)
+		sv.Points = append(sv.Points, Obj("_id", Str(seedID('s', i)), "note", Str(fmt.Sprintf("n%d", i))))
+	}
+	w = append(w, sv)
 	t := &Col{User: "tim", Id: "tiny", Create: Obj("id", Str("tiny"), "indexSchema",
 		Obj("vec", flat(2, "euclidean"), "str", Obj("type", Str("string"), "string", Obj("caseSensitive", Bool(false)))))}
 	for i := 0; i < 3; i++ {
@@ -155,6 +166,8 @@ func colTag(user, id string) byte {
 		return 'b'
 	case "dave/novec":
 		return 'n'
+	case "dave/stray":
+		return 's'
 	case "dave/flatvec":
 		return 'f'
 	case "tim/tiny":
